@@ -671,6 +671,41 @@ func leniency(r *core.Run) {
 				if core.CalleeName(pk2.TypesInfo, x) == "strings.TrimPrefix" && trimCall == token.NoPos {
 					trimCall = x.Pos()
 				}
+				// the comparison made by a lookup helper that is handed the name as given
+				if rawCmp == token.NoPos && param != nil {
+					if fn := core.CalleeFunc(pk2.TypesInfo, x); fn != nil && fn.Pkg() == pk2.Types {
+						for ai, a := range x.Args {
+							id, isID := core.Unparen(a).(*ast.Ident)
+							if !isID || pk2.TypesInfo.Uses[id] != param {
+								continue
+							}
+							cd := core.DeclOf(pk2, fn.Origin())
+							if cd == nil || cd.Body == nil || cd.Type.Params == nil {
+								continue
+							}
+							var hp types.Object
+							k := 0
+							for _, pf := range cd.Type.Params.List {
+								for _, nm := range pf.Names {
+									if k == ai {
+										hp = pk2.TypesInfo.Defs[nm]
+									}
+									k++
+								}
+							}
+							ast.Inspect(cd.Body, func(m ast.Node) bool {
+								if b, isB := m.(*ast.BinaryExpr); isB && b.Op == token.EQL {
+									for _, side := range []ast.Expr{b.X, b.Y} {
+										if sid, isS := core.Unparen(side).(*ast.Ident); isS && hp != nil && pk2.TypesInfo.Uses[sid] == hp {
+											rawCmp = x.Pos()
+										}
+									}
+								}
+								return true
+							})
+						}
+					}
+				}
 			}
 			return true
 		})
